@@ -931,7 +931,6 @@ def run_plan_inner(ctx, rng, plan, pending, found):
     carried = [(logon_d, logon_a)]
     holds = {}              # item index of a new object -> what it holds after its latest send
     history = {}            # the same -> [first message, ops…] of the object's life so far (for the model's `fix.resend`)
-    root_of = []
     expected_frames = n_user + res.get('n_heartbeats', 0)
     good_frames = frames[:expected_frames]
     ctx.count('heartbeats', res.get('n_heartbeats', 0))
